@@ -69,6 +69,14 @@ def build_calendar(spec, anchor=MON):
         hi = timedelta(hours=23, minutes=59, seconds=59, microseconds=999999)
         return (WeeklyCalendar(start=a + 2 * DAY, end=a + 40 * DAY + hi, days=[0, 1, 2, 3, 4], units_per_day=8)
                 | WeeklyCalendar(start=a - 40 * DAY, end=a - 3 * DAY + hi, days=[0, 1, 2, 3, 4], units_per_day=8)) * 0.5
+    if spec == 'div_zero':
+        # capacity divided by a calendar that has no capacity on Tuesdays (8 / 2 on the other working days)
+        return WeeklyCalendar(days=[0, 1, 2, 3, 4], units_per_day=8) / WeeklyCalendar(units_per_day={0: 2, 1: 0, 2: 2, 3: 2, 4: 2})
+    if spec == 'func_bounded':
+        # a function applied to calendars that have no information for four days around the anchor
+        hi = timedelta(hours=23, minutes=59, seconds=59, microseconds=999999)
+        return (WeeklyCalendar(start=a + 2 * DAY, end=a + 40 * DAY + hi, days=[0, 1, 2, 3, 4], units_per_day=8)
+                | WeeklyCalendar(start=a - 40 * DAY, end=a - 3 * DAY + hi, days=[0, 1, 2, 3, 4], units_per_day=8)).apply(_half)
     if spec == 'bounded_div':
         lo = a - 20 * DAY
         hi = a + 20 * DAY + timedelta(hours=23, minutes=59, seconds=59, microseconds=999999)
@@ -104,7 +112,11 @@ def build_calendar(spec, anchor=MON):
     raise runtime.HarnessError('unknown calendar spec %r' % (spec,))
 
 
-CAL_MENU = ['none', 'wk58', 'sparse', 'direct', 'holidays', 'half', 'or2', 'bounded', 'wk7', 'bounded_half']
+def _half(units):
+    return units * 0.5
+
+
+CAL_MENU = ['none', 'wk58', 'sparse', 'direct', 'holidays', 'half', 'or2', 'bounded', 'wk7', 'bounded_half', 'div_zero', 'func_bounded']
 NEVER_MENU = ['empty_direct', 'fixed0', 'weekly_noday', 'ended', 'notyet', 'tiny_direct']
 
 
